@@ -609,7 +609,12 @@ func main() {
 	tracePath := flag.String("trace", "", "output trace")
 	sumPath := flag.String("summary", "", "output summary JSON")
 	chunk := flag.Int("chunk", 0, "split the trace into files of about this many events")
+	lockfin := flag.Bool("lockfin", false, "the scenarios are LockFin histories (package clause of C08)")
 	flag.Parse()
+	if *lockfin {
+		lockfinMain(*scenarios, *tracePath, *sumPath)
+		return
+	}
 	raws, err := scen.Load(*scenarios)
 	if err != nil {
 		fmt.Fprintln(os.Stderr, err)
